@@ -104,7 +104,18 @@ META["C18"] = dict(
     design_ref="DESIGN.md section 4 / C18", note=_DBNOTE + " The file side of the snapshot (a flush replaces the file while the old one is still being read) is covered by the correspondence only.",
     technique="Coq proof (frame invariant over heap regions) + paused-scan differential on the real DB")
 
+META["C14"] = dict(
+    text=("Theorems (Props/C14.v): a point older than clock - retention when processed leaves the state unchanged; the clock is monotone; "
+          "above the truncation horizon the row store holds exactly the accumulated state of each period's points (live periods are "
+          "never dropped by inserts, flushes, truncation); rewriting a row removes exactly the periods at or before truncateBefore and "
+          "keeps the others unchanged; the horizon never exceeds clock - retention and only grows; among any ten consecutive "
+          "data-carrying flushes one truncates, and ten is the constant translated from row_store.go on this run; a later point of a "
+          "truncated period is too old or sits exactly on the boundary. Correspondence: retention histories on the real DB, one-sided "
+          "where the property is one-sided."),
+    design_ref="DESIGN.md section 4 / C14", note=_DBNOTE.replace(" Retention is excluded here (C14).", "") + " Real-time clocks and several tables sharing one clock are not modelled.",
+    technique="Coq proof (clock/horizon invariants, truncate denotation, store refinement, translated flush constant) + retention-history differential on the real DB")
+
 NOT_APPLICABLE = [
     {"property_id": p, "reason": _PENDING}
-    for p in ["C02", "C10", "C11", "C12", "C13", "C14", "C15", "C16", "C19", "C20"]
+    for p in ["C02", "C10", "C11", "C12", "C13", "C15", "C16", "C19", "C20"]
 ]
